@@ -128,6 +128,10 @@ def create(req, sock, client, server, cfg):
         elif hdr_name == "SCRIPT_NAME":
             script_name = hdr_value
         elif hdr_name == "CONTENT-TYPE":
+            # a repeated field is combined like every other one (RFC9110
+            # 5.3), never reduced to the line that happens to come last
+            if 'CONTENT_TYPE' in environ:
+                hdr_value = "%s,%s" % (environ['CONTENT_TYPE'], hdr_value)
             environ['CONTENT_TYPE'] = hdr_value
             continue
         elif hdr_name == "CONTENT-LENGTH":
